@@ -50,9 +50,11 @@ Clauses(e) ==
      << "C02.listed_means_written", IsRepair(e) => e.listed_ok >>,
      << "C02.nothing_else_changed", e.outside = << >> >>,
      << "C02.create_touches_only_archive",
-        e.op = "create" => (e.created_unexpected = << >> /\ e.changed_by_create = << >> /\ e.created # << >>) >>,
+        (e.op = "create" /\ e.res.err = "") => (e.created_unexpected = << >> /\ e.changed_by_create = << >> /\ e.created # << >>) >>,
+     \* the premise of the round trip: Create accepts every legitimate set (the drivers generate no other)
+     << "C01.create_accepts_legitimate_set", e.op = "create" => e.res.err = "" >>,
      \* the premise of C01: the recovery blocks Create was asked for are stored where Verify / Repair look for them
-     << "C01.create_stores_requested_blocks", e.op = "create" => e.blocks_beside_index = e.r_requested >>,
+     << "C01.create_stores_requested_blocks", (e.op = "create" /\ e.res.err = "") => e.blocks_beside_index = e.r_requested >>,
      << "C02.verify_modifies_nothing", IsVerify(e) => (e.writes = << >> /\ e.outside = << >>) >>,
      << "C03.verify_returns_result", IsVerify(e) => e.res.err = "" >>,
      << "C03.usable_sound", (IsVerify(e) /\ e.res.err = "") => e.res.usable <= e.nocc >>,
